@@ -309,6 +309,43 @@ def header_forms(ctx):
     return ev
 
 
+SYMMETRY_FORMS = [
+    # (LATT line, SYMM lines, SFAC line, UNIT line): the spellings of operators SHELXL accepts, one scattering factor type
+    ('LATT -1', ['SYMM -X+1/2, -Y, Z+1/2', 'SYMM -X, Y+1/2, -Z+1/2', 'SYMM X+1/2, -Y+1/2, -Z'], None, None),
+    ('LATT 1', ['SYMM -x, y+1/2, -z+1/2'], None, None), ('LATT 1', ['SYMM 0.5-X, Y, .5+Z'], None, None), ('LATT 1', ['SYMM -X+0.5,+Y,-Z+0.5'], None, None),
+    ('LATT -1', ['SYMM -Y, X-Y, Z+1/3', 'SYMM -X+Y, -X, Z+2/3'], None, None), ('LATT -1', ['SYMM -Y,X-Y,+1/3+Z', 'SYMM Y-X,-X,2/3+Z'], None, None),
+    ('LATT 1', ['SYMM -X-1/2, Y, -Z-1/2'], None, None), ('LATT 1', [], None, None), ('LATT -1', [], None, None),
+    ('LATT 1', ['SYMM -X, 1/2+Y, 1/2-Z'], 'SFAC S', 'UNIT 32'), ('LATT 1', ['SYMM -X, 1/2+Y, 1/2-Z'], 'SFAC c', 'UNIT 32'),
+    ('LATT 1', ['SYMM -X, 1/2+Y, 1/2-Z'], 'SFAC C H', 'UNIT 32 8'), ('LATT 7', ['SYMM -X, Y, 1/2-Z'], 'SFAC Cl', 'UNIT 4'),
+]
+
+
+def symmetry_forms(ctx):
+    """operator spellings (translation in front of or behind the axis term, with explicit sign, decimal or fraction), files without SYMM, one-element SFAC"""
+    ev = 0
+    for latt, symms, sfac, unit in SYMMETRY_FORMS:
+        atoms = ATOMS if sfac is None else ['X1 1 0.1 0.2 0.3 11.0 0.04', 'X2 1 0.2 0.3 0.4 11.0 0.05', 'X3 1 0.3 0.3 0.4 11.0 0.05']
+        lines = HEAD[:3] + [latt] + symms + [sfac or HEAD[5], unit or HEAD[6]] + HEAD[7:] + atoms + TAIL
+        text = '\n'.join(lines) + '\n'
+        want = [a.split()[0] for a in atoms]
+        models = []
+        for mode in MODES:
+            status, inner, shx = im.read_text(text, mode)
+            ev += 1
+            case = {'instruction': ' / '.join([latt] + symms + [sfac or '']), 'mode': mode, 'text': text}
+            if status != 'ok' or inner:
+                common.add_violation(ctx, 'a valid instruction raises', case, 'no exception', status + ' / ' + str(inner))
+                continue
+            names = [a.name for a in shx.atoms.all_atoms]
+            if names != want or shx.error_line_num != len(lines) - 1 or not shx.end or shx.unit is None:
+                common.add_violation(ctx, 'SFAC, UNIT, atoms or END after valid LATT / SYMM / SFAC instructions are not reached', case, want, names)
+                continue
+            models.append((im.atoms_table(shx), im.instr_tokens(shx), len(shx.symmcards)))
+        if len(models) == 3 and not (models[0] == models[1] == models[2]):
+            common.add_violation(ctx, 'the model differs between quiet, verbose and debug mode', {'instruction': ' / '.join([latt] + symms), 'text': text}, 'identical', 'different')
+    return ev
+
+
 NASTY = ['', '_', '__', 'C1__2', 'C1_1_2', 'C1_', '_2', '_*', 'C1_*_2', 'C1_$', '$', '$$', '_$1', '=', '==', '!', '.', '-', '+', '-.', '1e999', 'nan', 'inf', '-inf',
          '1.2.3', '--1', '0x10', '>', '<', '> <', '1,5', '1/0', '1/', '/2', '(1)', '0.5(', 'X+', '+X+', 'x,y', ',', ':', 'A:', ':1', 'A:B', '\t', '\x0c',
          '99999999999999999999', '1e-999', '+filename', '+', '++x', 'END', 'HKLF', 'FEND', 'FRAG']
@@ -418,7 +455,7 @@ def run(ctx):
     else:
         ctx.discharged += 1
     ng, nacc = run_grid(ctx)
-    n1 = covering(ctx) + footers(ctx) + context_forms(ctx) + continuations(ctx) + header_forms(ctx) + atom_forms(ctx)
+    n1 = covering(ctx) + footers(ctx) + context_forms(ctx) + continuations(ctx) + header_forms(ctx) + atom_forms(ctx) + symmetry_forms(ctx)
     n2 = random_files(ctx, 3000 if ctx.thorough() else 40)
     n3 = malformed(ctx, 150000 if ctx.thorough() else 1500) + malformed_tokens(ctx, 60000 if ctx.thorough() else 1500)
     ctx.cov['evaluations'] = ng + n1 + n2 + n3
